@@ -54,6 +54,13 @@ def check_batched(ctx, fi: FuncInfo, cls: str, rule: str = "NI-1") -> int:
             why.append(f"member {k} is not reshaped into (n_batch, batch_size, ...)")
             continue
         src, dims = rs
+        s0 = strip_wrappers(src)
+        plain = s0.op == "sym" or (s0.op == "getitem" and s0.args[0].op == "sym" and
+                                   s0.args[1].op == "const" and isinstance(s0.args[1].args[0], int))
+        if not plain:
+            split_ok = False
+            why.append(f"member {k} reshapes {show(s0, maxdepth=2)[:50]}, not the per-walker argument itself "
+                       f"(reordered / sliced walker axis)")
         if dims[0] is not nb:
             split_ok = False
             why.append(f"member {k}: leading dimension is {show(dims[0])}, not self.n_batch")
